@@ -96,7 +96,11 @@ func (e *kvElection) handleValidationFailure(err error) {
 		)...,
 	)
 
-	e.becomeFollower()
+	if !e.becomeFollower() {
+		// Leadership was already given up through another path (or the
+		// election was stopped); the demotion callback belongs to that path.
+		return
+	}
 
 	e.mu.RLock()
 	onDemote := e.onDemote
